@@ -6,6 +6,7 @@ use core::cmp::Ordering::{Less, Equal, Greater};
 //@include ../common/charord.rs
 broadcast use {fax::g, sax::ix_ok_usize, sax::ix_val_usize, sax::ix_upd_usize, vstd::std_specs::hash::group_hash_axioms, kax::char_key_model, cax::sort_post_char, cax::dedup_of_char};
 //@include ../common/helpers.rs
+//@include ../common/edit_forms.rs
 //@include ../dl/body.rs
 //@include ../dl/laws.rs
 //@include ../jaccard/body.rs
